@@ -199,6 +199,7 @@ def violText : Nat → String
   | 10 => "get returned nothing although items are queued"
   | 11 => "clientHeaders orphaned although the buffer was already closed / orphaned twice"
   | 12 => "unparsable answer of the implementation"
+  | 13 => "a clientHeaders was failed by the finish() of a control buffer it was not queued in"
   | _ => "?"
 
 /-- Verdict on one op and its result. -/
